@@ -808,6 +808,35 @@ fn exec_line(line: &str) -> Outcome {
             }
             o
         },
+        ["tag", _] => Outcome::ok("t"),
+        ["lvl", kind, q, b, g, e, l2, modhex, hname, cr] => {
+            // ONE call of Proof::security_level (no neighbour evaluations): the building block of histories
+            let v: Option<Vec<u64>> = [q, b, g, e, l2, cr].iter().map(|s| p(s)).collect();
+            let (Some(v), Some(m)) = (v, unhex_opt(modhex)) else { return Outcome::ok("bad-op") };
+            let conj = match *kind {
+                "C" => true,
+                "P" => false,
+                _ => return Outcome::ok("bad-op"),
+            };
+            if cr_of(hname) != Some(v[5] as u32) || m.is_empty() || v[4] > 63 || ext_of(v[3]).is_none() {
+                return Outcome::ok("bad-op");
+            }
+            let op = Opt { q: v[0], b: v[1], g: v[2], ext: v[3], ff: 8, fr: 0 };
+            let Some(l) = level(hname, &op, v[4] as u8, &m, conj) else { return Outcome::ok("noctx") };
+            let mut o = Outcome::ok(show(l));
+            if conj {
+                if let Some(x) = documented(bit_length(&m), &op, v[4] as u8, v[5] as u32) {
+                    if l.map(|y| y as u128) != Some(x) {
+                        o = o.fail("conj.formula", format!("got {} documented {}", show(l), x));
+                    }
+                }
+            } else if let Some(y) = l {
+                if y > v[5] as u32 {
+                    o = o.fail("prov.above-cr", format!("{} > collision resistance {}", y, v[5]));
+                }
+            }
+            o
+        },
         ["bits", modhex] => {
             let Some(m) = unhex_opt(modhex) else { return Outcome::ok("bad-op") };
             let Some(ctx) = make_ctx(1, &Opt { q: 1, b: 2, g: 0, ext: 1, ff: 2, fr: 0 }, 3, &m) else {
@@ -1224,6 +1253,137 @@ fn gen_all(rng: &mut Rng, tier: Tier, n: usize, emit: &mut dyn FnMut(String)) {
         set.push(x);
         emit(format!("validate set {} {}", tail, body(&set)));
     }
+    // --- histories (a ;; b ;; c runs back to back in one process): the estimates and the policy are pure functions,
+    //     so the result of an op must not depend on what was evaluated before it.  Consecutive ops differ in exactly
+    //     one parameter, taken from its boundary set, in both orders, and A ;; B ;; A returns to the first.
+    {
+        let crs = ["cr0", "b3_192", "rp62", "b3_256", "cr129", "cr4294967295"];
+        #[derive(Clone, Copy)]
+        struct T {
+            conj: bool,
+            q: u64,
+            b: u64,
+            g: u64,
+            e: u64,
+            l2: u64,
+            f: usize,
+            h: &'static str,
+        }
+        let mods2 = mods.clone();
+        let show_t = |t: &T| {
+            format!(
+                "lvl {} {} {} {} {} {} {} {} {}",
+                if t.conj { "C" } else { "P" },
+                t.q,
+                t.b,
+                t.g,
+                t.e,
+                t.l2,
+                hex(&mods2[t.f].1),
+                t.h,
+                cr_of(t.h).unwrap()
+            )
+        };
+        let mut hist = |label: String, parts: Vec<String>, emit: &mut dyn FnMut(String)| {
+            emit(format!("tag {} ;; {}", label, parts.join(" ;; ")));
+        };
+        // base tuples: each field size, each extension degree, a small and a large trace, blowups 2/8/128, queries 1/27/255
+        let mut bases: Vec<T> = vec![];
+        for (i, (b, q)) in [(2u64, 1u64), (8, 27), (128, 255), (2, 255), (128, 1), (8, 255), (8, 1), (2, 27), (128, 27)].iter().enumerate() {
+            for f in 0..3usize {
+                let e = 1 + ((i + f) % 3) as u64;
+                let l2 = if (i + f) % 2 == 0 { 3 } else { 16 };
+                let g = [0u64, 32, 16][(i + 2 * f) % 3];
+                bases.push(T { conj: false, q: *q, b: *b, g, e, l2, f, h: ["b3_256", "b3_192", "rp62"][(i + f) % 3] });
+            }
+        }
+        let nb = if thorough { bases.len() } else { 12 };
+        for (bi, base) in bases.iter().enumerate().take(nb) {
+            // every ordered pair of boundary values of one parameter
+            let mut variants: Vec<(String, Vec<(String, T)>)> = vec![];
+            variants.push(("g".into(), [0u64, 1, 15, 16, 31, 32].iter().map(|g| (format!("g{}", g), T { g: *g, ..*base })).collect()));
+            variants.push(("q".into(), [1u64, 2, 127, 128, 254, 255].iter().map(|q| (format!("q{}", q), T { q: *q, ..*base })).collect()));
+            variants.push(("b".into(), BLOWUPS.iter().map(|b| (format!("b{}", b), T { b: *b, l2: base.l2.min(31 - log2_exact(*b) as u64), ..*base })).collect()));
+            variants.push(("e".into(), (1..=3u64).map(|e| (format!("e{}", e), T { e, ..*base })).collect()));
+            variants.push(("f".into(), (0..3usize).map(|f| (format!("f{}", [62, 64, 128][f]), T { f, ..*base })).collect()));
+            let top = 31 - log2_exact(base.b) as u64;
+            let mut ls: Vec<u64> = vec![3, 4, 15, 16, 17, top - 1, top];
+            ls.dedup();
+            variants.push(("n".into(), ls.iter().map(|l| (format!("n{}", l), T { l2: *l, ..*base })).collect()));
+            variants.push(("cr".into(), crs.iter().map(|h| (format!("cr{}", cr_of(h).unwrap()), T { h, ..*base })).collect()));
+            variants.push(("k".into(), vec![("proven".to_string(), T { conj: false, ..*base }), ("conj".to_string(), T { conj: true, ..*base })]));
+            for (_, vs) in &variants {
+                for (i, (la, a)) in vs.iter().enumerate() {
+                    for (j, (lb, b)) in vs.iter().enumerate() {
+                        if i == j {
+                            continue;
+                        }
+                        // quick: every ordered pair for grinding / extension / estimate kind, a rotating half of the others
+                        let dense = la.starts_with('g') || la.starts_with('e') || la == "proven" || la == "conj";
+                        if !thorough && !dense && (i + j + bi) % 2 == 1 {
+                            continue;
+                        }
+                        hist(format!("{}->{}", la, lb), vec![show_t(a), show_t(b)], emit);
+                        if i < j {
+                            hist(format!("{}->{}->{}", la, lb, la), vec![show_t(a), show_t(b), show_t(a)], emit);
+                        }
+                    }
+                }
+            }
+        }
+        // a few hundred random pairs / triples (any parameters may differ)
+        let rt = |rng: &mut Rng| {
+            let b = *rng.pick(&BLOWUPS);
+            T {
+                conj: rng.chance(1, 4),
+                q: *rng.pick(&[1u64, 2, 27, 127, 128, 254, 255]),
+                b,
+                g: *rng.pick(&[0u64, 1, 15, 16, 31, 32]),
+                e: rng.range(1, 3),
+                l2: (*rng.pick(&[3u64, 4, 10, 11, 16, 24])).min(31 - log2_exact(b) as u64),
+                f: rng.below(3) as usize,
+                h: *rng.pick(&crs),
+            }
+        };
+        for _ in 0..(if thorough { 3000 } else { 300 }) {
+            let a = rt(rng);
+            let mut b = a;
+            // mostly one or two parameters apart, so that a partial key would collide
+            for _ in 0..rng.range(1, 2) {
+                let c = rt(rng);
+                match rng.below(6) {
+                    0 => b.g = c.g,
+                    1 => b.q = c.q,
+                    2 => b.e = c.e,
+                    3 => b.f = c.f,
+                    4 => b.h = c.h,
+                    _ => b.conj = c.conj,
+                }
+            }
+            if rng.chance(1, 2) {
+                hist("random".into(), vec![show_t(&a), show_t(&b)], emit);
+            } else {
+                hist("random3".into(), vec![show_t(&a), show_t(&b), show_t(&a)], emit);
+            }
+        }
+        // mixed kinds of ops: sweeps, the policy on synthetic proofs, and the levels around them
+        for base in bases.iter().take(if thorough { 27 } else { 9 }) {
+            for (ga, gb) in [(32u64, 0u64), (0, 32), (31, 32), (32, 16)] {
+                let a = T { g: ga, ..*base };
+                let b = T { g: gb, ..*base };
+                let m = hex(&mods2[a.f].1);
+                let cr = cr_of(a.h).unwrap();
+                let val = |t: &T, min: u64| format!("validate proven {} {} {} {} {} 8 0 {} {} {} {}", min, t.q, t.b, t.g, t.e, t.l2, m, t.h, cr);
+                let sweep = |t: &T| format!("prov {} {} {} {} {} {} {} {} {}", t.b, t.g, t.e, t.l2, m, t.h, cr, t.q, t.q);
+                let lb_ = level(b.h, &Opt { q: b.q, b: b.b, g: b.g, ext: b.e, ff: 8, fr: 0 }, b.l2 as u8, &mods2[b.f].1, false).flatten().unwrap_or(0) as u64;
+                hist(format!("validate-g{}->lvl-g{}", ga, gb), vec![val(&a, 0), show_t(&b)], emit);
+                hist(format!("validate-g{}->validate-g{}", ga, gb), vec![val(&a, 4294967295), val(&b, lb_), val(&b, lb_ + 1)], emit);
+                hist(format!("lvl-g{}->validate-g{}", ga, gb), vec![show_t(&a), val(&b, lb_ + 1), val(&b, lb_)], emit);
+                hist(format!("prov-g{}->prov-g{}", ga, gb), vec![sweep(&a), sweep(&b), sweep(&a)], emit);
+                hist(format!("conj-g{}->lvl-g{}", ga, gb), vec![format!("conj {} {} {} {} {} {} {}", a.b, a.g, a.e, a.l2, m, a.h, cr), show_t(&a), show_t(&b)], emit);
+            }
+        }
+    }
     // --- validate
     let nv = if thorough { 30000 } else { 3000 };
     for i in 0..nv {
@@ -1351,6 +1511,18 @@ fn gen_all(rng: &mut Rng, tier: Tier, n: usize, emit: &mut dyn FnMut(String)) {
             // (d) hardening, by construction: the honest proof's own levels; queries on / below / above the LDE domain
             //     size; every extension degree; the all-minimum and all-maximum options; minima around the levels
             emit(format!("plevel {} {} {}", cs, hex(&am), cr));
+            // histories at verify() level: a proof claiming grinding 32 (0) under a proven policy, then the level / the
+            // policy for the same parameters with grinding 0 (32), and back
+            for (ga, gb) in [(32u64, 0u64), (0, 32)] {
+                let oa = Opt { g: ga, ..c.opt };
+                let ob = Opt { g: gb, ..c.opt };
+                let lvl_line = |o: &Opt| format!("lvl P {} {} {} {} {} {} {} {}", o.q, o.b, o.g, o.ext, c.log2len, hex(&am), c.hname, cr);
+                let ver = |o: &Opt, min: u64| format!("{} proven {} {}", head(1), min, ctx(o, c.log2len, &am));
+                let lb_ = level(&c.hname, &ob, c.log2len, &am, false).flatten().unwrap_or(0) as u64;
+                emit(format!("tag verify-g{}->lvl-g{} ;; {} ;; {}", ga, gb, ver(&oa, 0), lvl_line(&ob)));
+                emit(format!("tag verify-g{}->verify-g{} ;; {} ;; {} ;; {}", ga, gb, ver(&oa, 4294967295), ver(&ob, lb_ + 1), ver(&ob, lb_)));
+                emit(format!("tag lvl-g{}->verify-g{}->plevel ;; {} ;; {} ;; plevel {} {} {}", ga, gb, lvl_line(&oa), ver(&ob, lb_ + 1), cs, hex(&am), cr));
+            }
             let mut muts: Vec<(Opt, u8)> = vec![];
             for (l2, b) in [(3u8, 2u64), (3, 4), (4, 4), (3, 16), (5, 8)] {
                 let lde = (1u64 << l2) * b;
@@ -1435,7 +1607,13 @@ impl Prop for P {
     }
     fn class(&self, line: &str, out: &str) -> String {
         let t: Vec<&str> = line.split(' ').collect();
+        if line.contains(" ;; ") {
+            let label = if t[0] == "tag" { t.get(1).copied().unwrap_or("") } else { "unlabelled" };
+            let o = if out.contains("panic") { "panic" } else { "ok" };
+            return format!("hist:{}:{}", label, o);
+        }
         let op = match t[0] {
+            "tag" | "lvl" => t[0].to_string(),
             "validate" => format!("validate.{}", t.get(1).unwrap_or(&"")),
             "verify" => format!("verify.{}.{}", t.get(1).unwrap_or(&"").split('/').next().unwrap_or(""), t.get(7).unwrap_or(&"")),
             "opts" | "optsb" | "ctx" | "plevel" | "bits" | "conj" | "prov" | "alpha" => t[0].to_string(),
